@@ -64,6 +64,38 @@ def run (c : Cfg) (o : Oracle) : List Step → List Nat → Nat → List Ev × B
         (finishAll o jobs ++ [Ev.start s.id true, Ev.finish s.id 0] ++ r.1, r.2)
       else (finishAll o jobs ++ [Ev.start s.id true, Ev.finish s.id (o.exit s.id)], false)
 
+/-- the same loop with robsd-kill in the picture: `kp i` says that the
+    `lock_alive` test at the end of the loop body of step `i` fails (the lock
+    file was made immutable meanwhile).  The test is reached after a parallel
+    step was put in the background and after a synchronous step succeeded; a
+    skipped step `continue`s past it and `end` returns before it.  When it
+    fails the orchestrator waits for every job still running and returns 1. -/
+def runK (c : Cfg) (o : Oracle) (kp : Nat → Bool) : List Step → List Nat → Nat → List Ev × Bool
+  | [], _, _ => ([], true)
+  | s :: rest, jobs, k =>
+    if c.skip s.id then runK c o kp rest jobs k
+    else if s.parallel then
+      if jobs.length = c.ncpu then
+        let rem := remaining o k jobs
+        let gone := jobs.filter (fun j => !rem.contains j)
+        if kp s.id then (finishAll o gone ++ [Ev.start s.id false] ++ finishAll o (rem ++ [s.id]), false)
+        else
+          let r := runK c o kp rest (rem ++ [s.id]) (k + 1)
+          (finishAll o gone ++ [Ev.start s.id false] ++ r.1, r.2)
+      else
+        if kp s.id then (Ev.start s.id false :: finishAll o (jobs ++ [s.id]), false)
+        else
+          let r := runK c o kp rest (jobs ++ [s.id]) k
+          (Ev.start s.id false :: r.1, r.2)
+    else
+      if s.isEnd then (finishAll o jobs ++ [Ev.endRec s.id], true)
+      else if o.exit s.id = 0 then
+        if kp s.id then (finishAll o jobs ++ [Ev.start s.id true, Ev.finish s.id 0], false)
+        else
+          let r := runK c o kp rest [] k
+          (finishAll o jobs ++ [Ev.start s.id true, Ev.finish s.id 0] ++ r.1, r.2)
+      else (finishAll o jobs ++ [Ev.start s.id true, Ev.finish s.id (o.exit s.id)], false)
+
 /-- The property as a checker over a trace: scans the events keeping the set of
     running steps and whether a synchronous step has failed.
     * a synchronous start (and the end record) needs nothing running;
